@@ -1082,6 +1082,7 @@ func (c *Conn) exec(ctx context.Context, req frameBuilder, tracer Tracer) (*fram
 		return nil, ctxErr
 	}
 
+	verifYield("exec.enter", c, 0)
 	// TODO: move tracer onto conn
 	stream, ok := c.streams.GetStream()
 	if !ok {
